@@ -412,6 +412,9 @@ def check_proto(mp, label):
             bad = _detached_sharding(model)
             if bad:
                 fails.append(("inconsistent-ir/sharding-spec-detached", f"{label}: {bad}"))
+            bad = _foreign_owner(model)
+            if bad:
+                fails.append(("inconsistent-ir/node-output-owned-by-another-graph", f"{label}: {bad}"))
             try:
                 p1 = ir.to_proto(model)
             except _Timeout:
@@ -439,6 +442,19 @@ def check_proto(mp, label):
         signal.alarm(0)
         signal.signal(signal.SIGALRM, old)
     return fails, model, stage
+
+
+def _foreign_owner(model):
+    """`Value.graph` is documented as: for an output of a node, the graph that node belongs to.  A deserialized IR in
+    which some graph claims (as its input/output/initializer) a value produced by a node of ANOTHER graph has two
+    owners for one value."""
+    graphs = [model.graph] + [f.graph for f in model.functions.values()]
+    for g in graphs:
+        for n in g.all_nodes():
+            for o in n.outputs:
+                if n.graph is not None and o.graph is not None and o.graph is not n.graph:
+                    return f"value {o.name!r} is produced by node {n.name!r} of graph {n.graph.name!r} but is owned by graph {o.graph.name!r}"
+    return None
 
 
 def _detached_sharding(model):
